@@ -697,7 +697,9 @@ func TestVerifC34Worker(t *testing.T) {
 					sched.Go(f)
 				}
 			}, func(x *sched.Exec) {
-				if cleanup != nil {
+				// After an aborted execution (deadlock / horizon) the unwound threads may still own real locks of that world:
+				// tearing it down could block for ever. The world is dropped instead (fresh objects are built per execution).
+				if cleanup != nil && !x.Aborted {
 					cleanup()
 				}
 				if strings.Contains(name, "traffic-check") || strings.Contains(name, "cert-check") {
